@@ -150,7 +150,8 @@ def _subs(tier, prop):
             {'k': 'fail', 'dev': 'p1', 't': 't0'}, {'k': 'restore', 'dev': 'p1', 't': 't1'}]), mons,
             pre=['2 * c1 < t0', 't0 < c1 + c2', 'c1 + c2 < t1']))
         S.append(mk_sub('F7-batches-into-batcher-slow-consumer', batches_into_batcher(), mons, zero=['cs', 'c0']))
-        S.append(mk_sub('F7-batches-into-batcher-n3', batches_into_batcher((3, 3, 3)), mons, zero=['cs']))
+        if not q:
+            S.append(mk_sub('F7-batches-into-batcher-n3', batches_into_batcher((3, 3, 3)), mons, zero=['cs']))
         S.append(mk_sub('F4-nested-n2', NESTED, mons, zero=['cs']))
         S.append(mk_sub('F4-reentrant-n2', REENTRANT, mons, zero=['cs', 'c0']))
         S.append(mk_sub('F8-budget-raise', with_ops(serial('H', 1), [
@@ -165,7 +166,7 @@ def _subs(tier, prop):
         S.append(mk_sub('F7-batch-backlog-cap4-mixed', batch_backlog_in_buffer(4, (3, None, 2)), mons + ['census'], zero=['cs']))
         for size in (None, 2):
             S.append(mk_sub(f'F7-buffer-into-batcher-size{size}', buffer_into_batcher(size), mons + ['census'],
-                            zero=['c0', 'd1'] if q else ['c0'], ranges={'b0': (0, 3), 'b1': (0, 3), 'd1': (0, L.T)}))
+                            zero=['c0', 'd1', 'cs'] if q else ['c0'], ranges={'b0': (0, 3), 'b1': (0, 3), 'd1': (0, L.T)}))
     elif prop == 'C06':
         mons = ['cycle']
         S.append(mk_sub('F1-P-n2', serial('P', 2), mons))
@@ -330,7 +331,7 @@ def _subs(tier, prop):
                            {'k': 'proc', 'name': 'm1', 'up': [], 'cycle': 'c1'}, {'k': 'handler', 'name': 'm2', 'up': ['m1'], 'cycle': 'c2'},
                            {'k': 'path', 'name': 'gpA', 'group': 'g', 'up': ['srcA']}, {'k': 'path', 'name': 'gpB', 'group': 'g', 'up': ['srcB']},
                            {'k': 'sink', 'name': 'snkA', 'up': ['gpA'], 'cycle': 0}, {'k': 'sink', 'name': 'snkB', 'up': ['gpB'], 'cycle': 0}]}
-        S.append(mk_sub('F4-two-paths-shared-group', two, mons))
+        S.append(mk_sub('F4-two-paths-shared-group', two, mons, zero=['c0']))
         nested = {'groups': [{'name': 'gin', 'devices': ['m1']}, {'name': 'gout', 'devices': ['ip']}],
                   'devices': [{'k': 'source', 'name': 'src', 'cycle': 'c0', 'parts': 2},
                               {'k': 'proc', 'name': 'm1', 'up': [], 'cycle': 'c1'},
@@ -357,7 +358,8 @@ def _subs(tier, prop):
                                     {'k': 'buffer', 'name': 'buf', 'up': ['bat'], 'delay': 0, 'cap': 10},
                                     {'k': 'sink', 'name': 'snk', 'up': ['buf'], 'cycle': 'cs'}]}
                 nm = ''.join('1' if b is None else 'B' for b in batches)
-                S.append(mk_sub(f'F7-size{size}-in{nm}', spec, mons, ranges={'b0': (0, 3), 'b1': (0, 3), 'b2': (0, 3)}, zero=['c0']))
+                S.append(mk_sub(f'F7-size{size}-in{nm}', spec, mons, ranges={'b0': (0, 3), 'b1': (0, 3), 'b2': (0, 3)},
+                                zero=['c0', 'cs'] if (q and size is None) else ['c0']))
         S.append(mk_sub('F7-batches-through-gate-refused', batches_through_gate(2), ['batch', 'routing'], zero=['cs', 'c0']))
         S.append(mk_sub('F7-buffer-into-batcher-size2', buffer_into_batcher(2), mons, zero=['c0', 'd1'],
                         ranges={'b0': (0, 3), 'b1': (0, 3)}))
@@ -377,6 +379,10 @@ SPLITS = {   # heavy analyses are case-split by the order pattern of these expre
     'F6-double-shutdown-double-restore': [('t0', 'c0'), ('t2', 'c0 + c1'), ('t3', 'c0 + c1')],
     'F6-workorder': [('t0', 'c0'), ('t0', 'c0 + c1'), ('t0 + w0', 'c0 + c1')],
     'F6-fail-restore-n2': [('t0', 'c0'), ('t0', 'c0 + c1')],
+    'F2-fanout-n3': [('c1', 'c2'), ('c0', 'c1'), ('c0', 'c2')],
+    'F4-two-paths-shared-group': [('c3', 'c1'), ('c3', 'c1 + c2')],
+    'F8-block-gate': [('t0', 'c1'), ('t1', 'c1'), ('c1', 'c2')],
+    'F8-block-path': [('t0', 'c1'), ('t1', 'c1'), ('t1', 'c1 + c2')],
     'F5-fail-while-holding': [('t0', 'c0'), ('t0', 'c0 + c1')],
     'F5-maintenance-while-holding': [('t0', 'c0'), ('t0', 'c0 + c1'), ('t1', 'c0 + c1')],
     'F6-fail-restore-trace': [('t0', 'c0'), ('t0', 'c0 + c1')],
@@ -389,9 +395,16 @@ SPLITS = {   # heavy analyses are case-split by the order pattern of these expre
 }
 
 
+FIFO = ('F7-sizeNone-', 'F7-buffer-into-batcher-sizeNone')
+
+
 def jobs(tier, prop):
     subs = []
     for s in _subs(tier, prop):
+        if tier == 'quick' and s['name'].startswith(FIFO):
+            # un-batching into single parts at one instant: dozens of equal-time events; the tie-break order is fixed
+            # (first created first) in these analyses so that the batch sizes can be explored exhaustively
+            s = dict(s, name=s['name'] + '-fifo', weights='fifo')
         if s['name'] in SPLITS:
             subs += split_by_order(s, SPLITS[s['name']])
         elif prop == 'C04' and s['name'].endswith('zero[]'):
@@ -408,7 +421,7 @@ def bounds_text(tier, prop):
     return ('models: ' + '; '.join(s['name'] for s in _subs(tier, prop)) + ' -- serial lines Source -> stations -> Sink with the '
             'listed station kinds (H handler, P processor, B buffer), n = source part budget, fault/blocking operations at '
             'symbolic instants; all cycle times, delays and instants symbolic ints in [1, 10**6] unless named zero; every '
-            'tie-break order (symbolic pairwise distinct weights)')
+            'tie-break order (symbolic pairwise distinct weights) except in analyses whose name ends in -fifo')
 
 
 REQUIRED = {
